@@ -33,7 +33,7 @@ EarlyStopConfigs ==
 \* A layer sequence over the five kinds; a final dense output layer is always appended.
 \* Which positions own a training flag: every dense/conv/deconv layer; a feedback block ("fb": one inner layer,
 \* two loops) owns one per unrolled layer; max-pool layers own none.
-Kinds == {"dense", "softmax", "conv", "deconv", "pool", "fb", "fbd", "fbs"}
+Kinds == {"dense", "softmax", "conv", "conv1", "deconv", "pool", "fb", "fbd", "fbs"}
 RECURSIVE FlagsOf(_)
 FlagsOf(ks) ==
   IF ks = <<>> THEN <<TRUE>>                         \* the final dense layer
